@@ -146,6 +146,10 @@ Definition q_lookup_git_sha l s : option (list entry) :=
            map (fun b => ETree (fst b)) (filter (fun b => bytes_eqb (snd b) s) (q_trees st)) in
   match r with [] => None | _ => Some r end.
 Definition q_revids l := map fst (q_commits (q_state l)).
+(* sha1s(): select sha1 from blobs, commits, trees (since 5287cc0 the bytes are yielded as read) *)
+Definition q_sha1s l : list bytes :=
+  map snd (q_blobs (q_state l)) ++ map (fun c => fst (fst (snd c))) (q_commits (q_state l)) ++
+  map snd (q_trees (q_state l)).
 Definition q_nrows l := (List.length (q_commits (q_state l)) + List.length (q_blobs (q_state l)) + List.length (q_trees (q_state l)))%nat.
 
 (* ---- Index --------------------------------------------------------------------------- *)
@@ -230,8 +234,7 @@ Definition answers (b : backend) (st : bstate) (q : queries) : obs :=
           OL (map (fun k => oopt OB (q_lookup_tree l k)) (qt q));
           OL (map (fun s => oentries (q_lookup_git_sha l s)) (qs q));
           oset (q_revids l);
-          (* sha1s(): sha.encode("ascii") on a bytes value *)
-          match q_nrows l with O => OL [] | _ => OE "AttributeError" end;
+          oset (q_sha1s l);
           oset (missing (q_revids l) (qm q))]
   | BIndex =>
       OL [OL (map (fun r => oopt OB (i_lookup_commit l r)) (qr q));
